@@ -35,6 +35,9 @@ def leaf_variants(E, params):
         for m in I.cpu['bad']: L.concrete(False, m)
     viol = L.finish(common.predicted_json(E, I, a))
     for v in viol:
+        if I.cpu is not None and I.cpu['nsched'] > 0:
+            v['rel'] = 'race'; v['schedule'] = {E.varnames.get(x, x): bin(m) for x, m in E.dom.items() if str(E.varnames.get(x, '')).startswith('sched')}
+            continue
         e = common.entry_name(sc0.kind, sc0.api)
         from .. import native
         p1 = native.profile_for(sc0.variant, 'dbg' not in sc0.variant and False)
